@@ -124,6 +124,8 @@ def main():
                 continue
             if a.only:
                 names = [n for n in names if re.search(a.only, n)]
+            if a.tier != "thorough":
+                names = [n for n in names if not any(re.fullmatch(x, n) for x in spec.get("thorough_only", []))]
             if not names:
                 continue
             cfgpath = os.path.join(work, "cfg%d.json" % gi)
